@@ -51,6 +51,15 @@ func runRealChains14(c *Ctx) {
 		var held []net.IPNet
 		n := 8 + r.Intn(20)
 		for i := 0; i < n; i++ {
+			if v4 && i%9 == 4 {
+				// a BOOTREPLY that looks like a DISCOVER / REQUEST: not a client's message, never answered
+				sp := randReq4(c)
+				sp.op = 2
+				sp.mtype = []byte{[]byte{1, 3}[r.Intn(2)]}
+				sp.bflag = true
+				spec.Dgrams = append(spec.Dgrams, chainDgram{Proto: 4, Hex: hex.EncodeToString(buildReq4(sp)), Oob: 7001, Peer: "0.0.0.0"})
+				continue
+			}
 			if v4 {
 				raw, _ := genDgram4x(c, nil, r.Pct(30))
 				spec.Dgrams = append(spec.Dgrams, chainDgram{Proto: 4, Hex: hex.EncodeToString(raw), Oob: []int{-1, 0, 7001}[r.Intn(3)], Peer: "0.0.0.0"})
